@@ -54,6 +54,9 @@ var c11Special = map[string][]string{
 	// large values that lie close together: a variance computed from sums of squares cancels catastrophically
 	"large-close": {"10000001", "10000002", "10000004", "10000003"},
 	"large-mixed": {"1e15", "1", "-1e15", "2"},
+	// a value that equals the mean of the ones before it, in several arrival orders
+	"mean-hit":  {"2", "2", "5", "3"},
+	"mean-hit2": {"1", "3", "2", "2"},
 }
 
 var c11Inner = map[string]*refmodel.Grouping{
@@ -133,6 +136,12 @@ func c11Templates() []c11Template {
 		{name: "min(max by(b)(sum by(a,b)))", build: func(x refmodel.Expr) refmodel.Expr {
 			return va("min", nil, va("max", g(false, "b"), va("sum", g(false, "a", "b"), x)))
 		}},
+		{name: "sum without(b)(sum without(a))", build: func(x refmodel.Expr) refmodel.Expr { return va("sum", g(true, "b"), va("sum", g(true, "a"), x)) }},
+		{name: "max without(a)(min without(c,b))", build: func(x refmodel.Expr) refmodel.Expr { return va("max", g(true, "a"), va("min", g(true, "c", "b"), x)) }},
+		{name: "count without(c)(sum without(c)(sum without(a)))", build: func(x refmodel.Expr) refmodel.Expr {
+			return va("count", g(true, "c"), va("sum", g(true, "c"), va("sum", g(true, "a"), x)))
+		}},
+		{name: "sum by(b)(count by(a,b))", build: func(x refmodel.Expr) refmodel.Expr { return va("sum", g(false, "b"), va("count", g(false, "a", "b"), x)) }},
 		{name: "sum by(c)(sum by(a))", build: func(x refmodel.Expr) refmodel.Expr { return va("sum", g(false, "c"), va("sum", g(false, "a"), x)) }},
 		{name: "sort(sum by(a))", instantOnly: true, build: func(x refmodel.Expr) refmodel.Expr { return va("sort", nil, va("sum", g(false, "a"), x)) }},
 		{name: "sort_desc(max by(b))", instantOnly: true, build: func(x refmodel.Expr) refmodel.Expr { return va("sort_desc", nil, va("max", g(false, "b"), x)) }},
@@ -284,7 +293,7 @@ func c11Run(r *vkit.Run) {
 		if !r.Mine(idx) || r.Stop() {
 			continue
 		}
-		for _, sp := range []string{"nan-first", "nan-last", "inf-first", "inf-mid", "inf-both", "neg-inf", "large-close", "large-mixed"} {
+		for _, sp := range []string{"nan-first", "nan-last", "inf-first", "inf-mid", "inf-both", "neg-inf", "large-close", "large-mixed", "mean-hit", "mean-hit2"} {
 			for _, t := range c11Tmpl {
 				op, _, _ := strings.Cut(t.name, " ")
 				switch op {
@@ -297,7 +306,7 @@ func c11Run(r *vkit.Run) {
 						continue
 					}
 				case "stddev", "stdvar":
-					if sp != "large-close" {
+					if sp != "large-close" && !strings.HasPrefix(sp, "mean-hit") {
 						continue
 					}
 				default:
